@@ -17,6 +17,7 @@ import (
 	"github.com/cube2222/octosql/physical"
 	"pgregory.net/rapid"
 
+	"verifharness/cli"
 	"verifharness/eng"
 	"verifharness/ev"
 	"verifharness/model"
@@ -56,8 +57,11 @@ func readFile(ext string, content []byte, opts string, buf int) fileRun {
 }
 
 func readPath(path string, opts string, buf int) fileRun {
+	return readSQL("SELECT * FROM `"+path+opts+"` t", buf)
+}
+
+func readSQL(sql string, buf int) fileRun {
 	ctx := fileCtx(buf)
-	sql := "SELECT * FROM `" + path + opts + "` t"
 	plan, cerr := eng.Compile(ctx, sql, eng.Env(nil), eng.Options{Optimize: true, Raw: true})
 	if cerr != nil {
 		return fileRun{Stage: "compile", Err: cerr}
@@ -778,12 +782,12 @@ func (r *c23) linesProp(c LinesCase) ev.Outcome {
 		return out
 	}
 	// attribute the deviation to a recorded finding, if it is exactly that deviation
-	equal := func(a, b []string) bool {
+	equal := func(a, b []string) bool { // a: records, b: rows (with the carriage-return leniency of newline-separated files)
 		if len(a) != len(b) {
 			return false
 		}
 		for i := range a {
-			if a[i] != b[i] {
+			if a[i] != b[i] && !(sep == "\n" && strings.HasSuffix(b[i], "\r") && a[i] == b[i][:len(b[i])-1]) {
 				return false
 			}
 		}
@@ -843,9 +847,12 @@ func TestC23(t *testing.T) {
 		"a `lines` row of 64 KiB or more may be refused with an error (scanner token limit), but may not be dropped silently",
 		"which admitted kind a CSV cell takes when several fit (\"1\" in Boolean | Int) is left open")
 	r := &c23{rec: rec}
+	cli.CapSeconds = 120 // the machine may be heavily loaded; termination itself is C29's subject
 	rec.SetExtra("json_delay_seed", os.Getenv("VERIF_JSON_DELAY_SEED"))
 	rec.SetExtra("gomaxprocs", os.Getenv("GOMAXPROCS"))
 	ev.Check(t, rec, "json_rows", ev.N(2400, 48000), genJSONCase, r.jsonProp)
 	ev.Check(t, rec, "csv_rows", ev.N(1600, 32000), genCSVCase, r.csvProp)
 	ev.Check(t, rec, "lines_rows", ev.N(1600, 32000), genLinesCase, r.linesProp)
+	ev.Check(t, rec, "parquet_rows", ev.N(1200, 24000), genPQCase, r.parquetProp)
+	ev.Check(t, rec, "cli_rows", ev.N(280, 5600), genCLICase, r.cliProp)
 }
